@@ -68,6 +68,8 @@ def _sys_ops(n, hmax, thorough, salt):
     halos = [(a, b) for a in range(hmax + 1) for b in range(hmax + 1)]
     for step in range(1, n + 2):
         for pre, post in halos:
+            if step > 4 and max(pre, post) > 2:
+                continue
             k += 1
             ops.append(_op("splitUniform", step, k % 3 == 0, pre, post))
     few = [(0, 0), (1, 0), (0, 1), (2, 2), (3, 3), (0, 3), (3, 0)] if thorough else [(0, 0), (1, 0), (0, 1), (2, 2), (3, 3)]
@@ -93,7 +95,7 @@ def generate(rng, tier, shard, nshards, mon):
     thorough = tier != "quick"
     n = 7 if thorough else 5
     hmax = 3 if thorough else 2
-    actives = [None, [1, n - 1], [2, n + 2], [n - 2, n + 1]] if thorough else [None, [1, n - 1], [2, n + 2]]
+    actives = [None, [1, n - 1], [2, n + 2]]
     idx = 0
     for vec in gen.all_state_vectors(n):
         for ai, act in enumerate(actives):
